@@ -20,6 +20,8 @@ def run(ctx):
     for mod, a, b in (('crysp.salsa20', 'rM', 'rMinv'), ('crysp.salsa20', 'cM', 'cMinv'), ('crysp.chacha', 'rM', 'rMinv'), ('crysp.chacha', 'cM', 'cMinv')):
         e = dict(op='inv_maps', name='%s.%s/%s' % (mod, a, b), raised='', p=[], q=[])
         try: e.update(maps(mod, a, b))
+        except (AttributeError, ImportError):
+            R.SKIPPED.append('%s: %s/%s not found, index maps skipped' % (mod, a, b)); continue
         except Exception as ex: e['raised'] = type(ex).__name__
         ev.append(e)
     for e in ev: ctx.mark((e['op'], e.get('name', ''), str(e.get('x', e.get('s', e.get('box', ''))))[:90], e.get('inv', '')))
@@ -68,5 +70,6 @@ def run(ctx):
     obj = R.construct('des', [bytes(8)]); clean = dict(ev=[R.ev_pair_blocks(obj, R.ci('des', [bytes(8)]), bytes(range(8)))])
     def corrupt(t): t['ev'][0]['obs']['fg'][0] ^= 128; return t
     ctx.binding_selftest('trace/Trace_Cipher.tla', clean, lambda t: len(t['ev']), corrupt, 'Trace_Cipher: dec(enc(B)) differs from B in one bit')
+    ctx.skipped += R.SKIPPED
     ctx.assumptions += ['component domains are enumerated completely (finite) or on a GF(2) basis for the linear maps; keys/blocks of the end-to-end part are sampled by class']
     return ctx.finish('code-side inverse pairs enumerated on whole finite domains / bases and judged by TLC; end-to-end round trips and spec equality per cipher, size and key class')
